@@ -6,6 +6,7 @@ import PharmpyModel.Generated.Effects
 import PharmpyModel.C06.Names
 import PharmpyModel.Generated.Containers
 import PharmpyModel.C06.Cache
+import PharmpyModel.C06.CovInit
 open Pharmpy Pharmpy.C06
 
 /-- `(a s)`, `(i id content)`, `(f id content)`, `(d (k v)…)`, `(t v…)`, `(o Cls v…)` -/
@@ -34,6 +35,25 @@ def cacheOp? : Sexp → Option Cache.Op
 
 /-- an order-free stand-in for `hash(frozenset(items))` -/
 def cacheH (c : Cache.Content) : Nat := c.foldl (fun acc kv => acc + (kv.1.hash.toNat % 1000003) * 31 + kv.2.hash.toNat % 1000003) 7
+
+def rat? : Sexp → Option Rat
+  | .atom s =>
+    match s.splitOn "/" with
+    | [n] => n.toInt?.map (fun i => (i : Rat))
+    | [n, d] => do
+      let n ← n.toInt?
+      let d ← d.toNat?
+      if d == 0 then none else pure (mkRat n d)
+    | _ => none
+  | _ => none
+
+def effect? : String → Option CovInit.Effect
+  | "exp" => some .exp | "lin" => some .lin | "piece_lin" => some .pieceLin | "pow" => some .pow
+  | "cat" => some .cat | "cat2" => some .cat2 | "other" => some .other | _ => none
+
+def index? : Sexp → Option (Option Nat)
+  | .atom "none" => some none
+  | s => s.asNat?.map some
 
 def bad : Sexp := .list [.atom "err", .atom "bad-op"]
 
@@ -73,6 +93,14 @@ def handle (req : Sexp) : Sexp :=
     | none => bad
   | .list [.atom "effects"] =>
     .list (Generated.effects.map (fun f => .list [.atom f.name, Sexp.ofBool (Eff.check f), Sexp.ofStrs (Eff.taintedWrites f)]))
+  | .list [.atom "covinit", .atom e, md, mn, mx, idx] =>
+    match effect? e, rat? md, rat? mn, rat? mx, index? idx with
+    | some e, some md, some mn, some mx, some idx =>
+      match CovInit.chooseInits e md mn mx idx with
+      | .ok r => .list [.atom "ok", .atom (toString r.init10), .atom (toString r.lower4), .atom (toString r.upper4),
+                        Sexp.ofBool (CovInit.initOk e md mn mx idx), Sexp.ofBool (CovInit.upperAdmitsDefault e md mn idx)]
+      | .error .pieceLinMedianAtExtreme => .list [.atom "err", .atom "piece-lin-median-at-extreme"]
+    | _, _, _, _, _ => bad
   | .list [.atom "unanalysed"] => Sexp.ofStrs Generated.unanalysed
   | _ => bad
 
